@@ -252,7 +252,9 @@ def header_rule(ctx, rule, repo, res, fo):
     ctx.instance(rule, "Codec.encode[skip set == emitted body prefix]", skip is not None and skip == emitted_body,
                  f"the encoder skips message tags {sorted(skip or [])} but emits {sorted(emitted_body)} itself: a tag is written twice or silently dropped", loc(enc))
     # header: 8, 9, 35 each emitted once in this order into the header list
-    hdr = [(t, c.lineno) for t, e, c, lst in em if lst != body_list]
+    from sa.core import positions
+    _pos = positions(enc)
+    hdr = [(t, _pos.get(id(c), c.lineno)) for t, e, c, lst in em if lst != body_list]
     hdr_tags = [t for t, _ in sorted(hdr, key=lambda x: x[1])]
     ctx.instance(rule, "Codec.encode[header 8,9]", hdr_tags[:2] == ["8", "9"], f"header fields are emitted as {hdr_tags}", loc(enc))
 
